@@ -170,6 +170,7 @@ class Subscriptions:
                              sorted([[k, codec.canon_py(kw_t[k], v)] for k, v in kwargs.items()]) if set(kwargs) <= set(kw_t) else repr(kwargs)])
             if raises:
                 raise TypeError('recording callback asked to raise')
+            return RETURNS[tag % len(RETURNS)]          # what a subscriber returns is its own business
         return cb
 
     def _prop_cb(self, key, tag, raises):
@@ -185,6 +186,7 @@ class Subscriptions:
                 pass
             if raises:
                 raise TypeError('recording callback asked to raise')
+            return RETURNS[(tag + 1) % len(RETURNS)]
         return cb
 
     def _nested_cb(self, key, tag, raises):
@@ -192,7 +194,11 @@ class Subscriptions:
             self.log.append(['N', key, tag, entity.id, canon_container(obj)])
             if raises:
                 raise TypeError('recording callback asked to raise')
+            return RETURNS[(tag + 2) % len(RETURNS)]
         return cb
+
+
+RETURNS = (None, True, False, 0, 1, 'handled', StopIteration, NotImplemented)
 
 
 class ImplHang(BaseException):
